@@ -398,3 +398,82 @@ var c16Session = pbt.Register(pbt.Prop[C16Session]{
 })
 
 func TestC16Session(t *testing.T) { pbt.Run(t, c16Session) }
+
+// ---- the server side of the login against a client that picks its own request id ---------------------
+
+type C16Login struct {
+	ServerPw string `json:"server_pw"`
+	ClientPw string `json:"client_pw"`
+	ID       int32  `json:"id"`
+}
+
+func c16CheckLogin(c C16Login) *pbt.Violation {
+	a, b := iox.NewDuplex()
+	srv := &mcnet.RCONConn{Conn: a}
+	cli := &mcnet.RCONConn{Conn: b}
+	done := make(chan error, 1)
+	go func() {
+		var err error
+		if pv, _ := pbt.Try(func() { err = srv.AcceptLogin(c.ServerPw) }); pv != nil {
+			err = fmt.Errorf("panic: %v", pv)
+		}
+		a.CloseWrite()
+		done <- err
+	}()
+	if err := cli.WritePacket(c.ID, 3, c.ClientPw); err != nil {
+		return pbt.V("harness:c16login", "harness", "client WritePacket: %v", err)
+	}
+	rid, rtyp, _, rerr := cli.ReadPacket()
+	var serr error
+	select {
+	case serr = <-done:
+	case <-time.After(20 * time.Second):
+		return pbt.V("c16.login.stalled", "login terminates", "AcceptLogin did not return")
+	}
+	equal := c.ServerPw == c.ClientPw
+	if equal {
+		if serr != nil {
+			return pbt.V("c16.login.rejected-right-password", "a client login succeeds exactly when its password equals the server's", "login id %d, equal passwords %q: AcceptLogin: %v", c.ID, clipS(c.ClientPw), serr)
+		}
+		if rerr != nil || rid != c.ID || rtyp != 2 {
+			return pbt.V("c16.login.confirmation", "on success the confirmation carries the request id in use", "login id %d: confirmation (id %d, type %d, err %v)", c.ID, rid, rtyp, rerr)
+		}
+		return nil
+	}
+	if serr == nil {
+		return pbt.V("c16.login.accepted-wrong-password", "a client login succeeds exactly when its password equals the server's",
+			"login under request id %d with password %q: AcceptLogin(%q) returned nil", c.ID, clipS(c.ClientPw), clipS(c.ServerPw))
+	}
+	if rerr == nil && !(rid == -1 && rtyp == 2) {
+		return pbt.V("c16.login.refusal", "on failure the server reports the rejection", "login id %d, wrong password: the client received (id %d, type %d), the protocol's refusal is (id -1, type 2)", c.ID, rid, rtyp)
+	}
+	return nil
+}
+
+var c16Login = pbt.Register(pbt.Prop[C16Login]{
+	Name: "C16Login",
+	Gen: func(t *rapid.T) C16Login {
+		c := C16Login{ServerPw: genPw(t, "serverpw")}
+		if rapid.Bool().Draw(t, "same") {
+			c.ClientPw = c.ServerPw
+		} else {
+			c.ClientPw = genPw(t, "clientpw")
+		}
+		c.ID = int32(boundaryI32(t, "id"))
+		if rapid.IntRange(0, 3).Draw(t, "idcls") == 1 {
+			c.ID = rapid.SampledFrom([]int32{-1, 0, 1, -2, 2147483647, -2147483648}).Draw(t, "idspecial")
+		}
+		return c
+	},
+	Check: c16CheckLogin,
+	Classify: func(c C16Login) (bool, []string, []byte) {
+		l := "login_passwords_equal"
+		if c.ServerPw != c.ClientPw {
+			l = "login_passwords_differ"
+		}
+		return true, []string{l}, nil
+	},
+	Quick: 16000, Thorough: 300000,
+})
+
+func TestC16Login(t *testing.T) { pbt.Run(t, c16Login) }
